@@ -1104,7 +1104,7 @@ func c14Constructors(c *Ctx) {
 		okLoop := false
 		f.Walk(func(n ast.Node) bool {
 			if rg, ok := n.(*ast.RangeStmt); ok {
-				if se, isSl := eng.Unparen(rg.X).(*ast.SliceExpr); isSl && se.Low == nil && se.High != nil {
+				if se, isSl := eng.Unparen(eng.ArgExpr(f.Info(), rg.X)).(*ast.SliceExpr); isSl && se.Low == nil && se.High != nil {
 					if o := eng.ObjOf(f.Info(), se.X); o != nil && eng.VarName(o) == "sweepingProviders" {
 						okLoop = true
 					}
